@@ -4,6 +4,7 @@
   Statements only (lemmas: Lemmas/Resync.lean and the C02 scanner lemmas).
 -/
 import BibVerif.Lemmas.Resync
+import BibVerif.Lemmas.LexAppend
 namespace Bib.C04
 open Bib
 
@@ -134,5 +135,47 @@ theorem concat_docs (d₁ : Doc) (items₂ : List (BlockSrc × List Tok)) (h₁ 
       · exact h₂ bj h⟩
   have := splitToks_doc P ⟨d₁.head, d₁.items ++ items₂⟩ hd
   simpa [Doc.toks, Doc.expected, expItems_append, itemsToks, List.append_assoc] using this
+
+/-- **Lexer boundary.** Look-ahead from inside arbitrary text `x` stops at a following block start:
+`lex (x ++ '@' :: r) = lex x ++ lex ('@' :: r)` whenever `'@' :: r` starts with `@type{`. -/
+theorem lexer_boundary (hP : P.isWord '@' = false) (r lit r2 : Str) (hy : atMatch P r = some (lit, r2))
+    (b : Bool) (x : Str) :
+    lexFrom P b (x ++ '@' :: r) = lexFrom P b x ++ lexFrom P false ('@' :: r) :=
+  lex_append_at P hP r lit r2 hy b x
+
+theorem run_good_append (a : List Tok) : ∀ (s : St) (b : List Tok), Good s (a ++ b) → Good (run P s a) b := by
+  induction a with
+  | nil => intro s b h; exact h
+  | cons t a ih => intro s b h; exact ih _ b (step_good P s t _ h)
+
+/-- **Re-synchronisation, text level.** Arbitrary text `x` (unbalanced braces or quotes, truncated
+blocks, garbage) followed by text that starts with `@type{` and lexes to well-formed blocks: those
+blocks are parsed exactly as expected on their own (line numbers offset by the newlines before
+them), after whatever `x` had produced, closed at the mark. -/
+theorem resync_text (hP : P.isWord '@' = false) (x r lit r2 : Str) (hy : atMatch P r = some (lit, r2))
+    (b : BlockSrc) (j : List Tok) (rest : List (BlockSrc × List Tok))
+    (hw : ∀ bj ∈ (b, j) :: rest, bj.1.WF P ∧ IsJunk bj.2)
+    (hl : lexFrom P false ('@' :: r) = itemsToks ((b, j) :: rest)) :
+    split P (x ++ '@' :: r) =
+      .ok (flushBlocks P (run P init (lex P x)) ++
+           expItems P (run P init (lex P x)).line ((b, j) :: rest)) := by
+  unfold split
+  have hlex : lex P (x ++ '@' :: r) = lex P x ++ itemsToks ((b, j) :: rest) := by
+    unfold lex
+    rw [← List.cons_append, lex_append_at P hP r lit r2 hy false ('\n' :: x), hl]
+  rw [hlex]
+  have hgood : Good init (lex P x ++ itemsToks ((b, j) :: rest)) := by
+    refine ⟨rfl, ?_, fun k ty hh => by simp [init] at hh⟩
+    rw [← hlex]; exact atOK_lexFrom P false _
+  have hg := run_good_append P (lex P x) init _ hgood
+  obtain ⟨lit', tl, hb⟩ := toks_starts_with_at b
+  refine resync P (lex P x) b j rest hw hg.1 ?_
+  intro k ty hm
+  obtain ⟨l, r', hr⟩ := hg.2.2 k ty hm
+  have : itemsToks ((b, j) :: rest) = AT lit' :: (tl ++ j ++ itemsToks rest) := by
+    simp [itemsToks, hb]
+  rw [this] at hr
+  injection hr with h1 _
+  simp [AT] at h1
 
 end Bib.C04
